@@ -283,10 +283,18 @@ class ArrTok(Model):
 
     @property
     def values(self):
+        # Array.values IS the buffer object: asking twice gives the same object (as long as the Array holds the same data)
         dt = self.dtype if self.dtype != "float64" else None
+        key = (repr(self.origin), self.unit.name, bool(RAW_UNITS[0]), tuple(self.shape), repr(dt))
+        cached = self.__dict__.get("_values_cache")
+        if cached is not None and cached[0] == key:
+            return cached[1]
         if RAW_UNITS[0]:
-            return RawTok(("raw", self.origin, self.unit.name), self.shape, dt)
-        return RawTok(self.origin, self.shape, dt)
+            tok = RawTok(("raw", self.origin, self.unit.name), self.shape, dt)
+        else:
+            tok = RawTok(self.origin, self.shape, dt)
+        self.__dict__["_values_cache"] = (key, tok)
+        return tok
 
     @values.setter
     def values(self, v):
@@ -315,6 +323,8 @@ class ArrTok(Model):
         return ArrTok(("copy", self.origin), self.unit, self.shape, self.name)
 
     def to(self, unit):
+        if getattr(unit, "name", unit) == self.unit.name:
+            return self         # Array.to hands back the array itself when it already has the unit (established by C08.R1)
         return ArrTok(("to", self.origin, getattr(unit, "name", unit)), unit, self.shape, self.name)
 
     def reshape(self, *shape):
